@@ -23,6 +23,9 @@ pub struct ChainStep {
     /// fault: this register is handed over as JSON text that does not parse (a malformed row). The step has no result and
     /// nothing is required of it; the steps after it are judged as always.
     pub bad_text: Option<(usize, Vec<u8>)>,
+    /// selections on a kept `Selector` only: another method of the same object is called first, on the same document
+    /// (1 `exists`, 2 `predicate_match`); its answer is not a document and is not judged
+    pub warm: u8,
 }
 
 /// What the library sees when register `i` is passed as text: the tree the text denotes.
@@ -53,8 +56,13 @@ fn sel_key(op: &Op) -> String {
 pub struct Chain;
 
 /// Splits the output of a path selection at the reported offsets.
-fn split(buf: &[u8], offs: &[u64]) -> Result<Vec<Vec<u8>>, String> {
+fn split(buf: &[u8], offs: &[u64], predicate: bool) -> Result<Vec<Vec<u8>>, String> {
     if offs.is_empty() {
+        // a whole-path predicate writes its one boolean without an offset; every other selection reports the end of
+        // each value it writes, and a caller splits the buffer there: bytes without an offset are no document at all
+        if !buf.is_empty() && !predicate {
+            return Err(format!("{} bytes were written but no offset was reported", buf.len()));
+        }
         return Ok(if buf.is_empty() { vec![] } else { vec![buf.to_vec()] });
     }
     let mut out = vec![];
@@ -186,7 +194,7 @@ impl Scenario for Chain {
                 let cands: Vec<usize> = reads.iter().enumerate().filter(|(pos, reg)| op.arg_accepts_text(*pos) && (text_regs.contains(reg) || *pos == 1) && (reads.len() < 2 || reads[0] != reads[1])).map(|(_, reg)| *reg).collect();
                 if !cands.is_empty() {
                     let bad = Some((cands[r.idx(cands.len())], r.pick(crate::scen_batch::BAD_TEXTS).to_vec()));
-                    steps.push(ChainStep { op, dst: vec![], text_regs, bad_text: bad });
+                    steps.push(ChainStep { op, dst: vec![], text_regs, bad_text: bad, warm: 0 });
                     continue;
                 }
             }
@@ -204,7 +212,8 @@ impl Scenario for Chain {
                     cur[dst[i]] = res.clone();
                 }
             }
-            steps.push(ChainStep { op, dst, text_regs, bad_text: None });
+            let warm = if matches!(op, Op::Select { .. }) && r.chance(1, 3) { 1 + r.below(2) as u8 } else { 0 };
+            steps.push(ChainStep { op, dst, text_regs, bad_text: None, warm });
         }
         let styles = (0..nregs).map(|_| if r.chance(1, 2) { mval::TextStyle::default() } else { gen::gen_text_style(&mut r) }).collect();
         let shared_buffer = r.chance(1, 4);
@@ -270,6 +279,7 @@ impl Scenario for Chain {
             if reused.is_some() {
                 stats.inc("probe/compiled_selector_reused");
             }
+            let warm = st.warm;
             let args: Vec<Vec<u8>> = if text_regs.is_empty() {
                 bregs.clone()
             } else {
@@ -280,13 +290,19 @@ impl Scenario for Chain {
             let mut offs = Vec::new();
             let got = if case.shared_buffer {
                 let (b0, o0) = (shared_buf.len(), shared_offs.len());
-                let g = guard(|| ops::call_with(op, &args, &mregs, &mut shared_buf, &mut shared_offs, reused));
+                let g = guard(|| {
+                    ops::warm_selector(op, &args, reused, warm);
+                    ops::call_with(op, &args, &mregs, &mut shared_buf, &mut shared_offs, reused)
+                });
                 // this step's result is what it appended; offsets are positions in the shared buffer
                 buf = shared_buf.get(b0..).map(|s| s.to_vec()).unwrap_or_default();
                 offs = shared_offs.get(o0..).map(|s| s.iter().map(|o| o.wrapping_sub(b0 as u64)).collect()).unwrap_or_default();
                 g
             } else {
-                guard(|| ops::call_with(op, &args, &mregs, &mut buf, &mut offs, reused))
+                guard(|| {
+                    ops::warm_selector(op, &args, reused, warm);
+                    ops::call_with(op, &args, &mregs, &mut buf, &mut offs, reused)
+                })
             };
             let got = match got {
                 Ok(g) => g,
@@ -301,7 +317,7 @@ impl Scenario for Chain {
             let (docs, wants): (Vec<Vec<u8>>, Vec<MVal>) = match (&got, &want) {
                 (LibOut::Wrote(Ok(())), ModelOut::Wrote(Ok(w))) => {
                     let docs = if matches!(op, Op::Select { .. }) {
-                        match split(&buf, &offs) {
+                        match split(&buf, &offs, matches!(op, Op::Select { path, .. } if path.predicate.is_some())) {
                             Ok(d) => d,
                             Err(why) => {
                                 violation = Some(Viol { class: format!("bad_offsets:{name}"), detail: format!("step {si} ({name}): {why}") });
@@ -500,7 +516,7 @@ impl Scenario for Chain {
             "registers": case.regs.iter().map(mval::to_replay).collect::<Vec<_>>(),
             "registers_json": case.regs.iter().map(mval::to_json).collect::<Vec<_>>(),
             "registers_hex": case.regs.iter().map(|r| mval::hex(&mval::encode(r))).collect::<Vec<_>>(),
-            "history": case.steps.iter().map(|s| json!({"call": s.op.to_json(), "dst": s.dst, "text_regs": s.text_regs,
+            "history": case.steps.iter().map(|s| json!({"call": s.op.to_json(), "dst": s.dst, "text_regs": s.text_regs, "warm": s.warm,
                 "bad_text": s.bad_text.as_ref().map(|(p, b)| json!({"reg": p, "hex": mval::hex(b)}))})).collect::<Vec<_>>(),
             "shared_buffer": case.shared_buffer,
             "reuse_selectors": case.reuse_selectors,
@@ -516,6 +532,7 @@ impl Scenario for Chain {
                 op: Op::from_json(&s["call"])?,
                 dst: s["dst"].as_array().map(|a| a.iter().filter_map(|x| x.as_u64().map(|v| v as usize)).collect()).unwrap_or_default(),
                 text_regs: s["text_regs"].as_array().map(|a| a.iter().filter_map(|x| x.as_u64().map(|v| v as usize)).collect()).unwrap_or_default(),
+                warm: s["warm"].as_u64().unwrap_or(0) as u8,
                 bad_text: match s.get("bad_text") {
                     Some(b) if b.is_object() => Some((b["reg"].as_u64().unwrap_or(0) as usize, mval::unhex(b["hex"].as_str().unwrap_or(""))?)),
                     _ => None,
